@@ -51,6 +51,17 @@ def site_task():
     return Task(f"{PROP}.Bd.site", PROP, "full run", run)
 
 
+def _constructor():
+    from contracts import access
+    from bounded import c05
+    c = access.constructor_block(PROP)
+    c.search_fn = c05.hidden_constructor
+    return c
+
+
+_constructor.__name__ = "constructor_block"
+
+
 def build(tier, seed):
     set_tier(tier)
     tasks = [a_task(PROP, display.should_display), a_task(PROP, display.filter_display2),
@@ -58,6 +69,7 @@ def build(tier, seed):
              a_task(PROP, _with_search(display.prune_blockdata)), a_task(PROP, display.str_method), a_task(PROP, display.basenode_url_block),
              a_task(PROP, display.set_display),
              Task(f"{PROP}.S.EntitySettings", PROP, "ford.settings.EntitySettings.from_project_settings", lambda: display.entity_settings_default_display(PROP) + display.project_lists_follow_selection(PROP)),
+             a_task(PROP, _constructor),
              Task(f"{PROP}.S.casefold.metadata_key", PROP, "ford.sourceform.FortranBase.read_metadata", lambda: __import__("contracts.casefold", fromlist=["x"]).metadata_key_obligation(PROP, lambda: __import__("bounded.c05", fromlist=["x"]).metadata_key_case())),
              Task(f"{PROP}.S.templates.docstring", PROP, "ford/templates/macros.html", lambda: tmpl_links.summary_obligations(PROP, lambda: __import__("bounded.c05", fromlist=["x"]).site_cases("hidden_specifics_with_long_docs"))),
              Task(f"{PROP}.S.templates.entity_links", PROP, "ford/templates", lambda: tmpl_links.obligations(PROP, lambda name, line: __import__("bounded.c05", fromlist=["x"]).site_cases())),
